@@ -451,6 +451,9 @@ func (g *Gen) Tx(v *view) error {
 		weights = []int{2, 0, 3, 1, 4, 4, 3, 4, 4, 1, 10, 2, 25, 12, 12, 6, 0}
 	case "money":
 		weights = []int{3, 1, 4, 2, 5, 16, 3, 4, 4, 1, 10, 6, 3, 12, 14, 8, 4}
+	case "genesis":
+		// the tables that survive a round trip: providers, nodes, plans (both partitions), links, sessions
+		weights = []int{4, 3, 5, 3, 8, 6, 9, 10, 6, 2, 5, 2, 3, 8, 8, 4, 3}
 	case "sessions":
 		// several settled sessions per subscription, byte counts sized against the quota
 		weights = []int{1, 0, 2, 1, 3, 8, 2, 3, 4, 0, 8, 1, 9, 22, 26, 14, 0}
@@ -935,6 +938,11 @@ func (g *Gen) Tx(v *view) error {
 			hash = append(hash, 1)
 		}
 		amt := []string{"100", "99", "0", "101", "199", "200", "12345678", "115792089237316195423570985008687907853269984665640564039457584007913129639935"}[g.pick(8)]
+		if g.Profile == "genesis" && g.chance(0.9) {
+			// a swap below 10000 makes every later export invalid (known finding F4, kept in the corpus):
+			// keep most histories of this profile exportable
+			amt = []string{"10000", "10001", "12345678", "999999"}[g.pick(4)]
+		}
 		recv := g.actor()
 		if g.chance(0.05) {
 			recv = DepositAddr
@@ -1181,7 +1189,7 @@ func (g *Gen) Block() error {
 				return err
 			}
 		}
-		if g.chance(0.06) {
+		if g.chance(0.15) {
 			if err := g.line("reimport"); err != nil {
 				return err
 			}
